@@ -233,9 +233,8 @@ Definition read_sub_detector (fuel : nat) : M Z :=
   | None => skip (sub32 total_size header_size) ;;; ret total_size
   end.
 
-Definition read_event (fuel : nat) : M unit :=
-  flag0 <- read ;;
-  flag <- (if flag0 =? DATA_SEPERATOR then skip 3 ;;; read else ret flag0) ;;
+(* the part of read_event() after the optional block separator has been consumed *)
+Definition read_event_rest (fuel : nat) (flag : Z) : M unit :=
   if negb (flag =? FULL_EVENT) then throw EEvtFlag else
   total_size <- read ;;
   header_size <- read ;;
@@ -254,6 +253,11 @@ Definition read_event (fuel : nat) : M unit :=
   (* if ( n_left != 0 ) throw "Invalid event size"  — unreachable after the loop, kept for the mirror *)
   modify (fill_offsets sel) ;;;
   ret tt.
+
+Definition read_event (fuel : nat) : M unit :=
+  flag0 <- read ;;
+  flag <- (if flag0 =? DATA_SEPERATOR then skip 3 ;;; read else ret flag0) ;;
+  read_event_rest fuel flag.
 
 (* while ( m_cursor < m_data_end ) { read_event(); } *)
 Fixpoint event_loop (fuel0 fuel : nat) : M unit :=
@@ -299,3 +303,37 @@ Definition fuel_for (buf : list Z) : nat := S (length buf).
 Definition parse (sel : list det) (buf : list Z) : res result := parse_gen false (fuel_for buf) sel buf.
 Definition read_bes_raw (names : list (option det)) (buf : list Z) : res result :=
   read_bes_raw_gen false (fuel_for buf) names buf.
+
+(* ---------------------------------------------------------------- decidable equality of answers (used by the
+   correspondence to re-check, inside Coq with vm_compute, the answers computed by the extracted program) *)
+Fixpoint list_eqb {A} (eqb : A -> A -> bool) (a b : list A) : bool :=
+  match a, b with
+  | [], [] => true
+  | x :: a', y :: b' => eqb x y && list_eqb eqb a' b'
+  | _, _ => false
+  end.
+Definition rows_eqb : list row -> list row -> bool := list_eqb (list_eqb Z.eqb).
+Definition detcol_eqb (a b : detcol) : bool := list_eqb Z.eqb (offsets a) (offsets b) && rows_eqb (rows a) (rows b).
+Definition result_eqb (a b : result) : bool :=
+  rows_eqb (r_hdr a) (r_hdr b) &&
+  list_eqb (fun x y => det_eqb (fst x) (fst y) && detcol_eqb (snd x) (snd y)) (r_dets a) (r_dets b).
+Definition oobk_eqb (a b : oobk) : bool :=
+  match a, b with
+  | OobRead, OobRead | OobBulk, OobBulk | OobEraseFront, OobEraseFront | OobEraseBack, OobEraseBack => true
+  | _, _ => false
+  end.
+Definition err_eqb (a b : err) : bool :=
+  match a, b with
+  | EEvtFlag, EEvtFlag | EEvtSize, EEvtSize | ESubFlag, ESubFlag | ERosFlag, ERosFlag | ERobFlag, ERobFlag
+  | ERodFlag, ERodFlag | EBadName, EBadName | EBadDetId, EBadDetId | EEnd, EEnd | ERodRange, ERodRange => true
+  | EEvtVersion x, EEvtVersion y | EEvtSpec x, EEvtSpec y | ERosSpec x, ERosSpec y => x =? y
+  | _, _ => false
+  end.
+Definition res_eqb (a b : res result) : bool :=
+  match a, b with
+  | Ok x, Ok y => result_eqb x y
+  | Throw x, Throw y => err_eqb x y
+  | OOB k i, OOB k' i' => oobk_eqb k k' && (i =? i')
+  | OutOfFuel, OutOfFuel => true
+  | _, _ => false
+  end.
